@@ -109,3 +109,9 @@ pub proof fn lemma_pow2_tz(b: u64)
     assert(1 * vstd::arithmetic::power2::pow2(t as nat) == vstd::arithmetic::power2::pow2(t as nat)) by (nonlinear_arith);
     vstd::bits::lemma_u64_shl_is_mul(1u64, tt);
 }
+
+//@ assume __vec_is_one : rule R12f: std semantics of `v == [1]` for a Vec<u64> (slice/array equality)
+#[verifier::external_body]
+pub fn __vec_is_one(v: &Vec<u64>) -> (r: bool)
+    ensures r == (v@ =~= seq![1u64])
+{ unimplemented!() }
